@@ -104,6 +104,10 @@ class ArrayConstraintBuilder(ConstraintOverrideVisitor):
     def visit_expr_array_sum(self, s):
         # Don't recurse into this
         pass
+    
+    def visit_expr_array_product(self, s):
+        # Don't recurse into this
+        pass
 
     def visit_expr_array_subscript(self, s : ExprArraySubscriptModel):
         if self.phase != 1:
